@@ -425,6 +425,20 @@ func (sel *Selection) Delete() (err error) {
 		}
 	}()
 
+	if leaf, isLeaf := sel.Meta().(meta.Leafable); isLeaf {
+		// a selection on a leaf (Find("c/x")): deleting it is clearing that field of the node that holds it
+		if sel.parent == nil {
+			return fmt.Errorf("%w. cannot delete '%s', no node holds it", fc.BadRequestError, leaf.Ident())
+		}
+		if list, inEntry := sel.parent.Meta().(*meta.List); inEntry && sel.parent.InsideList {
+			for _, k := range list.KeyMeta() {
+				if k.Ident() == leaf.Ident() {
+					return fmt.Errorf("%w. cannot delete key '%s' of an entry of '%s'", fc.BadRequestError, leaf.Ident(), list.Ident())
+				}
+			}
+		}
+		return sel.parent.ClearField(leaf)
+	}
 	if sel.InsideList {
 		r := ListRequest{
 			Request: Request{
